@@ -1,6 +1,21 @@
-//! E3: the shipped proc-macro artefact inside real rustc (filled in below).
-use crate::batch::Args;
+//! E3: the shipped artefact in the real compiler. The proc-macro dylib built from /repo with the
+//! guard OFF is loaded by a real `rustc`, which talks to it over the real `proc_macro` bridge; the
+//! only thing the simulator owns is OS entropy (LD_PRELOAD shim keyed by VERIF_ENTROPY) and the
+//! order of items in the crate (= the order, hence the history, of expansions in that compiler
+//! session). Worlds = (entropy value, item order). Observed: the expanded source of every module
+//! (`-Zunpretty=expanded`) and the diagnostics attributed to it (`--error-format=json`).
+
+use std::collections::{BTreeMap, BTreeSet};
+use std::path::{Path, PathBuf};
+use std::process::Command;
+
+use crate::batch::{signature, simple_diff, Args};
+use crate::corpus;
+use crate::gen::{self, GenOpts};
 use crate::json::J;
+use crate::prng::{mix64, Rng};
+use crate::seams::real_now_s;
+use crate::shrink::input_candidates;
 
 pub struct E3Result {
     pub engine_json: J,
@@ -8,11 +23,480 @@ pub struct E3Result {
     pub violations: Vec<J>,
 }
 
-pub fn run(_a: &Args, _tier: &str, _seed: u64) -> Result<E3Result, String> {
-    Err("E3 not built yet".into())
+pub struct Paths {
+    pub so: PathBuf,
+    pub shim: PathBuf,
+    pub work: PathBuf,
 }
 
-pub fn replay(_j: &J) -> i32 {
-    eprintln!("E3 replay not built yet");
-    2
+const CONTROL: &str = "mod ctrl {\n    #[derive(Debug, Clone, PartialEq, Eq, PartialOrd, Ord, Hash, Default)]\n    pub struct C<T> { a: u8, b: String, c: T }\n    #[derive(Debug, Clone, Copy, PartialEq, Hash)]\n    pub enum E { A, B(u8), C { x: u16 } }\n}\n";
+
+pub struct Crate {
+    pub src: String,
+    /// (first line, last line, module id), 1-based inclusive
+    pub lines: Vec<(usize, usize, usize)>,
+}
+
+pub fn build_crate(mods: &[(usize, String)], order: &[usize]) -> Crate {
+    let mut src = String::from("#![allow(unused, non_camel_case_types, non_snake_case)]\nextern crate educe;\n");
+    let mut line = 3usize;
+    let mut lines = vec![];
+    for &k in order {
+        let (id, text) = &mods[k];
+        let m = format!("mod m{id} {{\nuse educe::Educe;\n{}\n}}\n", text.trim_end());
+        let n = m.matches('\n').count();
+        lines.push((line, line + n - 1, *id));
+        line += n;
+        src.push_str(&m);
+    }
+    src.push_str(CONTROL);
+    src.push_str("fn main() {}\n");
+    Crate { src, lines }
+}
+
+#[derive(Clone, Debug, PartialEq, Eq)]
+pub struct ModObs {
+    pub expanded: String,
+    pub diags: Vec<String>,
+}
+
+pub struct Session {
+    pub mods: BTreeMap<usize, ModObs>,
+    pub control: String,
+    pub unattributed: Vec<String>,
+}
+
+pub fn run_rustc(p: &Paths, tag: &str, krate: &Crate, entropy: u64) -> Result<Session, String> {
+    std::fs::create_dir_all(&p.work).map_err(|e| e.to_string())?;
+    let src_path = p.work.join(format!("e3-{tag}.rs"));
+    std::fs::write(&src_path, &krate.src).map_err(|e| e.to_string())?;
+    let out = Command::new("rustc")
+        .arg("--edition").arg("2021")
+        .arg("-Zunpretty=expanded")
+        .arg("--error-format=json")
+        .arg("--crate-name").arg("e3crate")
+        .arg("--extern").arg(format!("educe={}", p.so.display()))
+        .arg(&src_path)
+        .env("RUSTC_BOOTSTRAP", "1")
+        .env("LD_PRELOAD", &p.shim)
+        .env("VERIF_ENTROPY", entropy.to_string())
+        .current_dir(&p.work)
+        .output()
+        .map_err(|e| format!("cannot run rustc: {e}"))?;
+    let stdout = String::from_utf8_lossy(&out.stdout).into_owned();
+    let stderr = String::from_utf8_lossy(&out.stderr).into_owned();
+    if !stdout.contains("mod ctrl") {
+        return Err(format!(
+            "rustc produced no expanded output (status {}): {}",
+            out.status,
+            stderr.chars().take(600).collect::<String>()
+        ));
+    }
+    // ---- split the expanded source into modules (pretty-printer puts top-level items at column 0)
+    let mut mods: BTreeMap<usize, ModObs> = BTreeMap::new();
+    let mut control = String::new();
+    let mut cur: Option<(String, String)> = None;
+    for l in stdout.lines() {
+        if cur.is_none() {
+            if let Some(rest) = l.strip_prefix("mod ") {
+                if let Some(name) = rest.strip_suffix(" {") {
+                    cur = Some((name.to_string(), String::new()));
+                    continue;
+                }
+                if let Some(name) = rest.strip_suffix(" {}").or(rest.strip_suffix(" { }")) {
+                    if let Some(id) = name.strip_prefix('m').and_then(|x| x.parse::<usize>().ok()) {
+                        mods.insert(id, ModObs { expanded: String::new(), diags: vec![] });
+                    }
+                    continue;
+                }
+            }
+        } else if l == "}" {
+            let (name, body) = cur.take().unwrap();
+            if name == "ctrl" {
+                control = body;
+            } else if let Some(id) = name.strip_prefix('m').and_then(|x| x.parse::<usize>().ok()) {
+                mods.insert(id, ModObs { expanded: body, diags: vec![] });
+            }
+        } else if let Some((_, body)) = cur.as_mut() {
+            body.push_str(l);
+            body.push('\n');
+        }
+    }
+    // ---- attribute diagnostics to modules through the primary span's line
+    let mut unattributed = vec![];
+    for l in stderr.lines() {
+        if !l.starts_with('{') {
+            continue;
+        }
+        let Ok(j) = J::parse(l) else { continue };
+        let level = j.get("level").and_then(|x| x.str()).unwrap_or("");
+        let msg = j.get("message").and_then(|x| x.str()).unwrap_or("");
+        if level != "error" && level != "warning" {
+            continue;
+        }
+        if msg.starts_with("aborting due to") || msg.contains("warning emitted") || msg.contains("warnings emitted") {
+            continue;
+        }
+        let spans = j.get("spans").and_then(|x| x.arr()).cloned().unwrap_or_default();
+        let primary = spans
+            .iter()
+            .find(|s| matches!(s.get("is_primary"), Some(J::Bool(true))))
+            .or(spans.first());
+        let line = primary.and_then(|s| s.get("line_start")).and_then(|x| x.u64()).unwrap_or(0) as usize;
+        let col = primary.and_then(|s| s.get("column_start")).and_then(|x| x.u64()).unwrap_or(0) as usize;
+        let mut children = String::new();
+        for c in j.get("children").and_then(|x| x.arr()).unwrap_or(&vec![]) {
+            children.push_str(" | ");
+            children.push_str(c.get("message").and_then(|x| x.str()).unwrap_or(""));
+        }
+        match krate.lines.iter().find(|(a, b, _)| line >= *a && line <= *b) {
+            Some((a, _, id)) => {
+                let rel = line - a;
+                let d = format!("{level}@+{rel}:{col}: {msg}{children}");
+                mods.entry(*id).or_insert_with(|| ModObs { expanded: String::new(), diags: vec![] }).diags.push(d);
+            },
+            None => unattributed.push(format!("{level}@{line}: {msg}")),
+        }
+    }
+    for m in mods.values_mut() {
+        m.diags.sort();
+    }
+    Ok(Session { mods, control, unattributed })
+}
+
+fn paths(a: &Args) -> Paths {
+    let verif = PathBuf::from(a.get("verif", "/verif"));
+    Paths {
+        so: PathBuf::from(a.get("e3-so", verif.join("build/target-real/release/libeduce.so").to_str().unwrap())),
+        shim: PathBuf::from(a.get("shim", verif.join("build/entropy_shim.so").to_str().unwrap())),
+        work: PathBuf::from(a.get("e3-work", verif.join("build/e3").to_str().unwrap())),
+    }
+}
+
+fn obs_to_outcome(o: &ModObs) -> String {
+    if o.diags.is_empty() {
+        o.expanded.clone()
+    } else {
+        format!("{}\n// diagnostics:\n{}", o.expanded, o.diags.join("\n"))
+    }
+}
+
+fn e3_signature(a: &ModObs, b: &ModObs) -> J {
+    if a.diags != b.diags {
+        return J::obj()
+            .set("kind", J::s("diagnostic_choice"))
+            .set("first", J::s(a.diags.join(" ; ")))
+            .set("second", J::s(b.diags.join(" ; ")));
+    }
+    // same token-level classifier as E1 (rustc's pretty-printed source re-tokenises fine)
+    let strip = |s: &str| -> String {
+        // drop the module preamble (`use educe::Educe;` and the echoed item) by keeping impls only
+        match s.find("impl") {
+            Some(i) => s[i..].to_string(),
+            None => s.to_string(),
+        }
+    };
+    signature(&strip(&a.expanded), &strip(&b.expanded))
+}
+
+/// does module text `input` (alone in a crate) differ between the two worlds?
+fn differs(p: &Paths, tag: &str, input: &str, e1: u64, e2: u64) -> Option<(ModObs, ModObs)> {
+    let mods = vec![(0usize, input.to_string())];
+    let k = build_crate(&mods, &[0]);
+    let s1 = run_rustc(p, &format!("{tag}-a"), &k, e1).ok()?;
+    let s2 = run_rustc(p, &format!("{tag}-b"), &k, e2).ok()?;
+    let (a, b) = (s1.mods.get(&0)?, s2.mods.get(&0)?);
+    if a != b {
+        Some((a.clone(), b.clone()))
+    } else {
+        None
+    }
+}
+
+fn write_e3_replay(dir: &Path, name: &str, j: &J) -> Option<PathBuf> {
+    std::fs::create_dir_all(dir).ok()?;
+    let p = dir.join(name);
+    std::fs::write(&p, j.to_string_pretty()).ok()?;
+    Some(p)
+}
+
+pub fn run(a: &Args, tier: &str, seed: u64) -> Result<E3Result, String> {
+    let p = paths(a);
+    if !p.so.exists() {
+        return Err(format!("{} missing (run ./check build)", p.so.display()));
+    }
+    if !p.shim.exists() {
+        return Err(format!("{} missing (run ./check build)", p.shim.display()));
+    }
+    let thorough = tier == "thorough";
+    let t0 = real_now_s();
+    let repo = PathBuf::from(a.get("repo", "/repo"));
+    let replay_dir = PathBuf::from(a.get("replay-dir", "/verif/replays"));
+    let corp = corpus::harvest(&repo);
+    let mut rng = Rng::new(mix64(seed ^ 0xE3E3_E3E3));
+
+    // ---- workload
+    let n_corpus = if thorough { corp.inputs.len() } else { a.u64("e3-corpus", 70) as usize };
+    let n_gen = if thorough { a.u64("e3-gen", 600) } else { a.u64("e3-gen", 50) } as usize;
+    let n_entropy = if thorough { a.u64("e3-entropy", 24) } else { a.u64("e3-entropy", 4) };
+    let n_orders = if thorough { a.u64("e3-orders", 6) } else { a.u64("e3-orders", 2) } as usize;
+    let crate_size = a.u64("e3-crate-size", 120) as usize;
+
+    let mut all: Vec<(usize, String)> = vec![];
+    let mut idx: Vec<usize> = (0..corp.inputs.len()).collect();
+    rng.shuffle(&mut idx);
+    // Into-bearing corpus inputs first: they are the ones with several items per request
+    idx.sort_by_key(|i| if corp.inputs[*i].text.contains("Into") { 0 } else { 1 });
+    for i in idx.into_iter().take(n_corpus) {
+        all.push((all.len(), corp.inputs[i].text.clone()));
+    }
+    for k in 0..n_gen {
+        let opts = GenOpts { error_pct: 20, into_heavy: rng.chance(1, 2) };
+        let t = gen::generate(&mut rng, &format!("E{k}"), &opts);
+        all.push((all.len(), t));
+    }
+
+    let mut invocations = 0u64;
+    let mut modules_compared = 0u64;
+    let mut pairs: BTreeSet<(usize, u64, u64)> = BTreeSet::new();
+    let mut nontrivial_pairs: BTreeSet<(usize, u64)> = BTreeSet::new();
+    let mut violations: Vec<J> = vec![];
+    let mut with_diag = 0u64;
+    let mut multi_item = 0u64;
+    let mut samples: Vec<J> = vec![];
+    let mut control_ref: Option<String> = None;
+    let mut crates = 0u64;
+    let max_minimised = a.u64("e3-max-violations", 2) as usize;
+    let mut further_differing = 0u64;
+
+    'outer: for (ci, chunk) in all.chunks(crate_size).enumerate() {
+        crates += 1;
+        let mods: Vec<(usize, String)> = chunk.to_vec();
+        let mut reference: BTreeMap<usize, (ModObs, u64, usize)> = BTreeMap::new();
+        let mut flagged: BTreeSet<usize> = BTreeSet::new();
+        let mut order_srcs: Vec<String> = vec![];
+        for oi in 0..n_orders {
+            let mut order: Vec<usize> = (0..mods.len()).collect();
+            let order_seed = if oi == 0 { 0 } else { rng.next_u64() };
+            if oi > 0 {
+                let mut r = Rng::new(order_seed);
+                r.shuffle(&mut order);
+                // sometimes a subset: a different *set* of predecessors, not just another order
+                if r.chance(1, 2) {
+                    let keep = order.len() - r.usize(order.len() / 2 + 1);
+                    order.truncate(keep.max(1));
+                }
+            }
+            let krate = build_crate(&mods, &order);
+            order_srcs.push(krate.src.clone());
+            for ei in 0..n_entropy {
+                let entropy = if oi == 0 && ei == 0 { 0 } else { 1 + ei + 1000 * oi as u64 + 100_000 * ci as u64 };
+                let sess = run_rustc(&p, &format!("c{ci}"), &krate, entropy)?;
+                invocations += 1;
+                match &control_ref {
+                    None => control_ref = Some(sess.control.clone()),
+                    Some(c) => {
+                        if *c != sess.control {
+                            return Err("control module (std derives only) expanded differently between worlds: the environment, not educe, is nondeterministic".into());
+                        }
+                    },
+                }
+                for (id, obs) in &sess.mods {
+                    modules_compared += 1;
+                    pairs.insert((*id, entropy, order_seed));
+                    let n_impl = obs.expanded.matches("\n    impl").count() + obs.expanded.matches("\nimpl").count();
+                    if n_impl >= 2 || !obs.diags.is_empty() {
+                        nontrivial_pairs.insert((*id, entropy ^ mix64(order_seed)));
+                    }
+                    if oi == 0 && ei == 0 {
+                        if !obs.diags.is_empty() {
+                            with_diag += 1;
+                        }
+                        if n_impl >= 2 {
+                            multi_item += 1;
+                        }
+                        if samples.len() < 2 && n_impl >= 2 {
+                            samples.push(
+                                J::obj()
+                                    .set("module", J::i(*id as u64))
+                                    .set("input", J::s(mods.iter().find(|(i, _)| i == id).map(|(_, t)| t.clone()).unwrap_or_default()))
+                                    .set("expanded_hash", J::s(format!("{:016x}", crate::scenario::fnv64(&obs.expanded))))
+                                    .set("worlds", J::s(format!("{n_entropy} entropy values x {n_orders} item orders"))),
+                            );
+                        }
+                    }
+                    match reference.get(id) {
+                        None => {
+                            reference.insert(*id, (obs.clone(), entropy, oi));
+                        },
+                        Some((r, e0, o0)) => {
+                            if r != obs && flagged.insert(*id) {
+                                if violations.len() >= max_minimised {
+                                    further_differing += 1;
+                                    continue;
+                                }
+                                // ---- violation: isolate to a one-module crate, shrink the input
+                                let text = mods.iter().find(|(i, _)| i == id).map(|(_, t)| t.clone()).unwrap_or_default();
+                                let mut cur_text = text.clone();
+                                let tag = format!("v{ci}-{id}");
+                                let mut isolated = differs(&p, &tag, &cur_text, *e0, entropy);
+                                let mut evals = 1;
+                                if isolated.is_some() {
+                                    loop {
+                                        let mut improved = false;
+                                        for cand in input_candidates(&cur_text) {
+                                            if cand.len() >= cur_text.len() || evals >= 40 {
+                                                continue;
+                                            }
+                                            evals += 1;
+                                            if let Some(d) = differs(&p, &tag, &cand, *e0, entropy) {
+                                                cur_text = cand;
+                                                isolated = Some(d);
+                                                improved = true;
+                                                break;
+                                            }
+                                        }
+                                        if !improved {
+                                            break;
+                                        }
+                                    }
+                                }
+                                let (oa, ob, scen) = match &isolated {
+                                    Some((x, y)) => (
+                                        x.clone(),
+                                        y.clone(),
+                                        J::obj()
+                                            .set("crate", J::s(build_crate(&[(0, cur_text.clone())], &[0]).src))
+                                            .set("module", J::i(0))
+                                            .set("entropy", J::Arr(vec![J::s(e0.to_string()), J::s(entropy.to_string())])),
+                                    ),
+                                    None => {
+                                        // needs its neighbours (history inside the compiler session): keep both crates
+                                        (
+                                            r.clone(),
+                                            obs.clone(),
+                                            J::obj()
+                                                .set("crate", J::s(krate.src.clone()))
+                                                .set("crate_first", J::s(order_srcs[*o0].clone()))
+                                                .set("module", J::i(*id as u64))
+                                                .set("entropy", J::Arr(vec![J::s(e0.to_string()), J::s(entropy.to_string())]))
+                                                .set("note", J::s("did not reproduce with the module alone; the full crates of both worlds are kept")),
+                                        )
+                                    },
+                                };
+                                let sig = e3_signature(&oa, &ob);
+                                let j = J::obj()
+                                    .set("property", J::s("C16"))
+                                    .set("engine", J::s("E3 real rustc + shipped libeduce.so + LD_PRELOAD entropy shim"))
+                                    .set("verif_seed", J::s(seed.to_string()))
+                                    .set("input", J::s(cur_text.clone()))
+                                    .set("signature", sig.clone())
+                                    .set("scenario", scen)
+                                    .set("observed", J::Arr(vec![J::s(obs_to_outcome(&oa)), J::s(obs_to_outcome(&ob))]))
+                                    .set("diff", J::s(simple_diff(&obs_to_outcome(&oa), &obs_to_outcome(&ob))))
+                                    .set("minimisation", J::obj().set("rustc_pairs", J::i(evals as u64)));
+                                let path = write_e3_replay(&replay_dir, &format!("C16-E3-{seed}-{ci}-{id}.json"), &j);
+                                violations.push(
+                                    J::obj()
+                                        .set("engine", J::s("E3"))
+                                        .set("replay", path.map(|p| J::s(p.display().to_string())).unwrap_or(J::Null))
+                                        .set("signature", sig)
+                                        .set("input", J::s(cur_text)),
+                                );
+                            }
+                        },
+                    }
+                }
+                if violations.len() >= max_minimised {
+                    break 'outer;
+                }
+            }
+        }
+    }
+    let wall = real_now_s() - t0;
+    let coverage = J::obj()
+        .set("rustc_invocations", J::i(invocations))
+        .set("crates", J::i(crates))
+        .set("modules", J::i(all.len() as u64))
+        .set("module_expansions_compared", J::i(modules_compared))
+        .set("distinct_module_world_pairs", J::i(pairs.len() as u64))
+        .set("distinct_nontrivial_module_world_pairs", J::i(nontrivial_pairs.len() as u64))
+        .set("modules_with_diagnostics", J::i(with_diag))
+        .set("modules_with_multiple_items", J::i(multi_item))
+        .set("entropy_values_per_order", J::i(n_entropy))
+        .set("item_orders", J::i(n_orders as u64))
+        .set("control_module_stable", J::Bool(true))
+        .set("further_differing_modules_not_minimised", J::i(further_differing))
+        .set("samples", J::Arr(samples))
+        .set("wall_s", J::Num(wall));
+    let engine_json = J::obj()
+        .set("name", J::s("E3 real rustc"))
+        .set("real", J::s("the proc-macro dylib built from /repo with the guard off, the proc_macro bridge, rustc's expansion and diagnostics"))
+        .set("stub", J::s("OS entropy only (LD_PRELOAD getrandom keyed by VERIF_ENTROPY)"))
+        .set("expansions", J::i(modules_compared));
+    Ok(E3Result { engine_json, coverage, violations })
+}
+
+pub fn replay(j: &J, path: &Path) -> i32 {
+    let a = Args { map: BTreeMap::new() };
+    let p = paths(&a);
+    let Some(sc) = j.get("scenario") else {
+        eprintln!("no scenario");
+        return 2;
+    };
+    let module = sc.get("module").and_then(|x| x.u64()).unwrap_or(0) as usize;
+    let ents: Vec<u64> = sc
+        .get("entropy")
+        .and_then(|x| x.arr())
+        .map(|v| v.iter().filter_map(|e| e.str().and_then(|s| s.parse().ok())).collect())
+        .unwrap_or_default();
+    if ents.len() != 2 {
+        eprintln!("scenario needs two entropy values");
+        return 2;
+    }
+    let src_b = sc.get("crate").and_then(|x| x.str()).unwrap_or("").to_string();
+    let src_a = sc.get("crate_first").and_then(|x| x.str()).map(|s| s.to_string()).unwrap_or(src_b.clone());
+    let line_table = |src: &str| -> Vec<(usize, usize, usize)> {
+        // recover module line ranges from the source text
+        let mut v = vec![];
+        let mut start: Option<(usize, usize)> = None;
+        for (n, l) in src.lines().enumerate() {
+            let ln = n + 1;
+            if let Some(rest) = l.strip_prefix("mod m") {
+                if let Some(id) = rest.strip_suffix(" {").and_then(|x| x.parse::<usize>().ok()) {
+                    start = Some((ln, id));
+                }
+            } else if l == "}" {
+                if let Some((s, id)) = start.take() {
+                    v.push((s, ln, id));
+                }
+            }
+        }
+        v
+    };
+    let ka = Crate { lines: line_table(&src_a), src: src_a };
+    let kb = Crate { lines: line_table(&src_b), src: src_b };
+    let (sa, sb) = match (run_rustc(&p, "replay-a", &ka, ents[0]), run_rustc(&p, "replay-b", &kb, ents[1])) {
+        (Ok(a), Ok(b)) => (a, b),
+        (Err(e), _) | (_, Err(e)) => {
+            eprintln!("harness error: {e}");
+            return 2;
+        },
+    };
+    match (sa.mods.get(&module), sb.mods.get(&module)) {
+        (Some(x), Some(y)) if x != y => {
+            println!("replay (E3): module m{module} differs between entropy {} and {}", ents[0], ents[1]);
+            println!("{}", simple_diff(&obs_to_outcome(x), &obs_to_outcome(y)));
+            println!("VIOLATION property=C16 replay={}", path.display());
+            1
+        },
+        (Some(_), Some(_)) => {
+            println!("replay (E3): outcomes agree (no violation)");
+            0
+        },
+        _ => {
+            eprintln!("module m{module} not found in rustc output");
+            2
+        },
+    }
 }
